@@ -37,14 +37,33 @@ const BIP380_INPUT_CHARSET: &[u8; 95] =
 const BIP380_CHECKSUM_CHARSET: &[u8; 32] = b"qpzry9x8gf2tvdw0s3jn54khce6mua7l";
 const BIP380_GENERATOR: [u64; 5] = [0xf5dee51989, 0xa9fdca3312, 0x1bab10e32d, 0x3706b1677a, 0x644d626ffd];
 
-/// `INPUT_CHARSET.find(c)` (None = -1 = "not c in INPUT_CHARSET")
-fn ref_input_find(c: u32) -> Option<u64> {
+/// `INPUT_CHARSET.find(c)` (None = -1 = "not c in INPUT_CHARSET"), literally: first index holding c
+fn ref_input_find_loop(c: u32) -> Option<u64> {
     let mut i = 0;
     while i < 95 {
         if BIP380_INPUT_CHARSET[i] as u32 == c { return Some(i as u64); }
         i += 1;
     }
     None
+}
+
+/// The same function tabulated by rustc's const evaluator from the BIP380 string (so that harnesses which call it
+/// many times need no 95-fold loop unwinding); `charset_ref_table` proves it equal to the loop for every c.
+const fn build_find_table() -> [i16; 128] {
+    let mut t = [-1i16; 128];
+    let mut i = 95;
+    while i > 0 {
+        i -= 1;
+        t[BIP380_INPUT_CHARSET[i] as usize] = i as i16; // descending: the FIRST occurrence wins, like str.find
+    }
+    t
+}
+const REF_FIND: [i16; 128] = build_find_table();
+
+fn ref_input_find(c: u32) -> Option<u64> {
+    if c >= 128 { return None; }
+    let v = REF_FIND[c as usize];
+    if v < 0 { None } else { Some(v as u64) }
 }
 
 fn ref_checksum_find(c: u8) -> Option<u64> {
@@ -123,6 +142,14 @@ impl Ref {
     }
 }
 
+/// all bytes < 128 (assumed by every caller) => valid UTF-8; core::str::from_utf8's validation loops cost CBMC
+/// thousands of unwindings, so the check is skipped
+#[allow(unsafe_code)]
+fn ascii_str(b: &[u8]) -> &str { unsafe { core::str::from_utf8_unchecked(b) } }
+/// bytes produced by char::encode_utf8 after an ASCII prefix
+#[allow(unsafe_code)]
+fn utf8_str(b: &[u8]) -> &str { unsafe { core::str::from_utf8_unchecked(b) } }
+
 fn same_state(e: &Engine, r: &Ref) -> bool {
     *e.inner.residue() == r.chk && e.clscount == r.ngroups as u64 && e.cls == r.cls()
 }
@@ -131,11 +158,12 @@ fn same_state(e: &Engine, r: &Ref) -> bool {
 // (1) COMPLETE over every Unicode scalar value: a character is accepted iff it is in BIP380's INPUT_CHARSET,
 //     and the table the engine indexes agrees with INPUT_CHARSET.find.
 #[kani::proof]
+#[kani::solver(kissat)]
 #[kani::unwind(97)]
 fn charset_table_complete() {
     let ch: char = kani::any();
     let code = ch as u32;
-    let found = ref_input_find(code);
+    let found = ref_input_find_loop(code);
     kani::cover!(found.is_some());
     kani::cover!(found.is_none() && code < 128);
     kani::cover!(code > 0xffff);
@@ -147,13 +175,23 @@ fn charset_table_complete() {
     }
 }
 
+// the tabulated oracle equals the literal one, for every u32 (COMPLETE)
+#[kani::proof]
+#[kani::solver(kissat)]
+#[kani::unwind(97)]
+fn charset_ref_table() {
+    let c: u32 = kani::any();
+    assert!(ref_input_find(c) == ref_input_find_loop(c), "C10:charset.tabulated_oracle_is_str_find");
+}
+
 // the same for all 256 byte values fed to input_unchecked's index expression (no underflow / out of bounds
 // exactly on the charset)
 #[kani::proof]
+#[kani::solver(kissat)]
 #[kani::unwind(97)]
 fn charset_bytes_complete() {
     let b: u8 = kani::any();
-    let found = ref_input_find(b as u32);
+    let found = ref_input_find_loop(b as u32);
     let idx = (b as usize).checked_sub(32);
     let in_table = match idx { Some(i) => i < CHAR_MAP.len(), None => false };
     assert!(in_table == found.is_some(), "C10:charset.table_domain_is_input_charset");
@@ -163,15 +201,20 @@ fn charset_bytes_complete() {
     }
 }
 
-// Engine::input on a one-character string: Err(InvalidCharacter{ch,pos:0}) iff not in INPUT_CHARSET
-// (COMPLETE over all `char`); on success the state is the reference state.
+// Engine::input on a one-character ASCII string: Err(InvalidCharacter{ch,pos:0}) iff not in INPUT_CHARSET; on
+// success the state is the reference state.  BOUNDED to the 128 one-byte strings: decoding multi-byte UTF-8 with
+// `char_indices` costs CBMC > 15 min; the acceptance predicate itself is decided for every `char` by
+// charset_table_complete above.
 #[kani::proof]
-#[kani::unwind(97)]
-fn engine_input_one_char() {
-    let ch: char = kani::any();
-    let mut buf = [0u8; 4];
-    let s: &str = ch.encode_utf8(&mut buf);
-    let found = ref_input_find(ch as u32);
+#[kani::solver(kissat)]
+#[kani::unwind(7)]
+fn engine_input_one_ascii() {
+    let b: u8 = kani::any();
+    kani::assume(b < 128);
+    let buf = [b];
+    let s: &str = ascii_str(&buf);
+    let ch = b as char;
+    let found = ref_input_find(b as u32);
     kani::cover!(found.is_some());
     kani::cover!(found.is_none());
     let mut e = Engine::new();
@@ -213,6 +256,7 @@ fn any_state() -> (Engine, Ref) {
 }
 
 #[kani::proof]
+#[kani::solver(kissat)]
 fn engine_new() {
     let e = Engine::new();
     let r = Ref::new();
@@ -221,7 +265,8 @@ fn engine_new() {
 }
 
 #[kani::proof]
-#[kani::unwind(97)]
+#[kani::solver(kissat)]
+#[kani::unwind(7)]
 fn engine_step_inductive() {
     let (mut e, mut r) = any_state();
     let b: u8 = kani::any();
@@ -241,6 +286,7 @@ fn engine_step_inductive() {
 
 // (3a) COMPLETE finalisation: from every invariant state, checksum_chars() is descsum_create's 8 characters.
 #[kani::proof]
+#[kani::solver(kissat)]
 #[kani::unwind(10)]
 fn checksum_chars_inductive() {
     let (mut e, r) = any_state();
@@ -260,7 +306,8 @@ fn checksum_chars_inductive() {
 // (2b)/(3b) BOUNDED, without the transmute: every string of <= 4 charset characters fed through the real
 //      Engine::new / input_unchecked reaches the BIP380 state, and checksum_chars equals descsum_create.
 #[kani::proof]
-#[kani::unwind(97)]
+#[kani::solver(kissat)]
+#[kani::unwind(10)]
 fn engine_reachable_le4() {
     let n: usize = kani::any();
     kani::assume(n <= 4);
@@ -293,8 +340,14 @@ fn engine_reachable_le4() {
 // (4) verify_checksum.  Oracle: a string without '#' is its own payload; otherwise it must be
 //     payload '#' c1..c8 with descsum_check true (the '#' at position -9 is then the last one, since '#' is not
 //     in CHECKSUM_CHARSET).  BOUNDED: payload of P charset characters, P <= 2, then optionally '#' and
-//     0..=9 further symbolic printable characters.
-fn verify_case<const P: usize, const T: usize>(with_hash: bool) {
+//     0..=9 further symbolic printable characters.  unwind 34 where the real code compares two [char; 8] (memcmp
+//     over 32 bytes) and the oracle scans CHECKSUM_CHARSET (32 entries).
+/// Stub for core's cold str-slicing failure path: the real `slice_error_fail` formats its message by slicing the
+/// string again (mutually recursive with `str::index`); CBMC unrolls that recursion 2^unwind times and runs out
+/// of memory.  The stub still panics, so an out-of-range / non-boundary slice in verify_checksum is still reported.
+fn stub_slice_error_fail(_s: &str, _begin: usize, _end: usize) -> ! { panic!("str slice index error") }
+
+fn verify_case<const P: usize, const T: usize>(with_hash: bool) -> Option<bool> {
     // layout: P payload chars, ['#', T tail chars]
     let mut buf = [0u8; 12];
     let mut r = Ref::new();
@@ -321,16 +374,16 @@ fn verify_case<const P: usize, const T: usize>(with_hash: bool) {
             j += 1;
         }
     }
-    let s = core::str::from_utf8(&buf[..len]).unwrap();
+    let s = ascii_str(&buf[..len]);
     let res = verify_checksum(s);
     if !with_hash {
         assert!(res == Ok(s), "C10:verify_checksum.no_hash_is_payload");
+        None
     } else if T != 8 {
         assert!(res == Err(Error::InvalidChecksumLength { actual: T, expected: 8 }), "C10:verify_checksum.wrong_length_rejected");
+        None
     } else {
         let valid = r.check(&tail);
-        kani::cover!(valid);
-        kani::cover!(!valid);
         assert!(res.is_ok() == valid, "C10:verify_checksum.ok_iff_descsum_check");
         match res {
             Ok(p) => assert!(p.len() == P && p.as_bytes() == &buf[..P], "C10:verify_checksum.returns_payload"),
@@ -344,36 +397,51 @@ fn verify_case<const P: usize, const T: usize>(with_hash: bool) {
             }
             Err(_) => assert!(false, "C10:verify_checksum.error_kind"),
         }
+        Some(valid)
     }
 }
 
 #[kani::proof]
-#[kani::unwind(97)]
-fn verify_checksum_no_hash() { verify_case::<2, 0>(false) }
+#[kani::solver(kissat)]
+#[kani::unwind(13)]
+#[kani::stub(core::str::slice_error_fail, stub_slice_error_fail)]
+fn verify_checksum_no_hash() { kani::cover!(true); verify_case::<2, 0>(false); }
 
 #[kani::proof]
-#[kani::unwind(97)]
-fn verify_checksum_one_char_len8() { verify_case::<1, 8>(true) }
+#[kani::solver(kissat)]
+#[kani::unwind(34)]
+#[kani::stub(core::str::slice_error_fail, stub_slice_error_fail)]
+fn verify_checksum_one_char_len8() { let v = verify_case::<1, 8>(true); kani::cover!(v == Some(true)); kani::cover!(v == Some(false)); }
 
 #[kani::proof]
-#[kani::unwind(97)]
-fn verify_checksum_nopayload_len8() { verify_case::<0, 8>(true) }
+#[kani::solver(kissat)]
+#[kani::unwind(34)]
+#[kani::stub(core::str::slice_error_fail, stub_slice_error_fail)]
+fn verify_checksum_nopayload_len8() { let v = verify_case::<0, 8>(true); kani::cover!(v == Some(true)); kani::cover!(v == Some(false)); }
 
 #[kani::proof]
-#[kani::unwind(97)]
-fn verify_checksum_short() { verify_case::<1, 7>(true) }
+#[kani::solver(kissat)]
+#[kani::unwind(13)]
+#[kani::stub(core::str::slice_error_fail, stub_slice_error_fail)]
+fn verify_checksum_short() { kani::cover!(true); verify_case::<1, 7>(true); }
 
 #[kani::proof]
-#[kani::unwind(97)]
-fn verify_checksum_long() { verify_case::<1, 9>(true) }
+#[kani::solver(kissat)]
+#[kani::unwind(13)]
+#[kani::stub(core::str::slice_error_fail, stub_slice_error_fail)]
+fn verify_checksum_long() { kani::cover!(true); verify_case::<1, 9>(true); }
 
 #[kani::proof]
-#[kani::unwind(97)]
-fn verify_checksum_empty_tail() { verify_case::<1, 0>(true) }
+#[kani::solver(kissat)]
+#[kani::unwind(13)]
+#[kani::stub(core::str::slice_error_fail, stub_slice_error_fail)]
+fn verify_checksum_empty_tail() { kani::cover!(true); verify_case::<1, 0>(true); }
 
 // two '#': the LAST one delimits the checksum, the first belongs to the payload ('#' is in INPUT_CHARSET)
 #[kani::proof]
-#[kani::unwind(97)]
+#[kani::solver(kissat)]
+#[kani::unwind(34)]
+#[kani::stub(core::str::slice_error_fail, stub_slice_error_fail)]
 fn verify_checksum_two_hashes() {
     let mut buf = [0u8; 11];
     buf[0] = b'a';
@@ -391,7 +459,7 @@ fn verify_checksum_two_hashes() {
         tail[j] = b;
         j += 1;
     }
-    let s = core::str::from_utf8(&buf[..]).unwrap();
+    let s = ascii_str(&buf[..]);
     let valid = r.check(&tail);
     kani::cover!(valid);
     let res = verify_checksum(s);
@@ -401,14 +469,16 @@ fn verify_checksum_two_hashes() {
 
 // non-ASCII / control characters are rejected with their position (one symbolic char after a 1-char payload)
 #[kani::proof]
-#[kani::unwind(97)]
+#[kani::solver(kissat)]
+#[kani::unwind(13)]
+#[kani::stub(core::str::slice_error_fail, stub_slice_error_fail)]
 fn verify_checksum_invalid_char() {
     let ch: char = kani::any();
     kani::assume(!(32..127).contains(&(ch as u32)));
     let mut buf = [0u8; 5];
     buf[0] = b'a';
     let l = ch.encode_utf8(&mut buf[1..]).len();
-    let s = core::str::from_utf8(&buf[..1 + l]).unwrap();
+    let s = utf8_str(&buf[..1 + l]);
     kani::cover!(l == 4);
     kani::cover!(l == 1);
     let res = verify_checksum(s);
